@@ -49,14 +49,16 @@ def doLine (line : String) : String :=
     -- `archive_get_path_and_glob`: an invalid pattern is refused in the `/` form, escaped in the `!/` form
     let passthrough := bad && sep != "!"
     let g : String → Bool := if bad then look "E" else look "G"
-    let out := extractArchive pat g "arch" listing ms
-    -- the second request: what exists is what the first one wrote (files, and the directories above them)
+    let out := land (extractArchive pat g "arch" listing ms)
+    -- the second request: what exists is what the first one wrote
     let firstFiles := out.map fun (n, _) => resolved n
     let existsIn (n : String) : Bool :=
       let r := resolved n
-      firstFiles.any fun f => f == r || f.startsWith (r ++ "/") || r == ""
+      firstFiles.any fun f => f == r          -- only a file counts as already extracted (fix: `is_file`)
     let second : Option (List String × List (String × List UInt8)) :=
-      if pat2 == "" then none else some (extractArchiveInto existsIn pat2 g2 "arch" listing ms)
+      if pat2 == "" then none else
+        let r := extractArchiveInto existsIn pat2 g2 "arch" listing ms
+        some (r.1, land r.2)
     let render (o : List (String × List UInt8)) : String :=
       let r := sortStrs (o.map fun (n, _) => hexOfStr (resolved n))
       let all : List (String × List UInt8) := match second with
@@ -72,7 +74,7 @@ def doLine (line : String) : String :=
     -- (an archive with the single entry `data` follows the documented .gz/.bz2 rule: the entry is taken when the pattern
     --  is `data` or matches the archive stem, and is then named after the archive)
     let want := if passthrough then "P" else if listing == ["data"] then render out else
-      render ((ms.filter (Spec.selected pat g)).map fun m => (m.enclosed.getD m.name, m.data))
+      render (land ((ms.filter (Spec.selected pat g)).map fun m => (m.enclosed.getD m.name, m.data)))
     let tok (o pre : String) : String := match (fields o " ").find? (·.startsWith pre) with | some t => (t.drop pre.length).toString | none => ""
     let orc (o : String) : String :=
       if o == "PANIC" then "C20=FAIL:panic"
